@@ -319,7 +319,7 @@ def run(ctx, ck) -> None:
     c01._r_drv(sub, world, table, strict_order=True)
     c01._r_nary(sub, world, table)
     for o in sub.obs:
-        if o.rule.endswith(('R-DRV', 'R-NARY')):
+        if o.rule.endswith(('R-DRV', 'R-NARY')) and 'scalar product' not in o.construct:
             o.rule = f'{ck.pid}.N6'
             ck.obs.append(o)
     ck.floor('N6', sum(1 for o in ck.obs if o.rule.endswith('N6')), 6, 'driver obligations (operands reduced first, n-ary rules before the scan)')
